@@ -474,6 +474,47 @@ Theorem C19_plsr_fit_entry_cases : forall (F : Type) (Op : fops F) (sqrtF : F ->
 Proof. exact @plsr_fit_entry_cases. Qed.
 Print Assumptions C19_plsr_fit_entry_cases.
 
+(* the entry points raise on shape grounds as the shape tests plsr_fit_rejects / plsr_new_x_rejects / plsr_new_y_rejects say;
+   these tests (and the stopping test rel_small, the loop skeleton and the stored attributes of both regressors) are regenerated
+   from the current Python source by an ast translator on every run and the equalities with the model are re-proved *)
+Theorem C19_plsr_entry_shape_tests : forall (F : Type) (Op : fops F) (sqrtF : F -> F) (init : tensor F -> list (tensor F))
+  (ne_solve : list (list F) -> list F -> list F) (p : pprm) (X Y : tensor F) (a : pattrs) (Xn Yn : tensor F),
+  (plsr_fit_entry Op sqrtF init ne_solve p X Y = FitRaiseClean <-> plsr_fit_rejects (shape X) (shape Y) = true) /\
+  shape (as_matrix Y) = y_matrix_shape (shape Y) /\
+  (plsr_new_x_rejects (a_xshape a) (shape Xn) = true ->
+     plsr_predict_entry Op p a Xn = Err /\ forall Yo, plsr_transform_entry Op p a Xn Yo = Err) /\
+  (plsr_new_y_rejects (a_yshape a) (shape Yn) = true -> plsr_transform_entry Op p a Xn (Some Yn) = Err).
+Proof. exact @plsr_entry_shape_tests. Qed.
+Print Assumptions C19_plsr_entry_shape_tests.
+
+(* histories of the CP_PLSR object: the attributes of every reachable state were bound by one fit call (successful, or raising
+   inside its component loop), so what every such call establishes holds in every reachable state -- e.g. the recorded shapes;
+   every predict answers from the attributes and the n_components in force at that moment *)
+Theorem C19_pobj_reachable_inv : forall (F : Type) (Op : fops F) (sqrtF : F -> F) (init : tensor F -> list (tensor F))
+  (ne_solve : list (list F) -> list F -> list F) (Inv : pattrs -> Prop),
+  (forall (p : pprm) (X Y : tensor F) (a : pattrs),
+     plsr_fit_entry Op sqrtF init ne_solve p X Y = FitOk a \/ plsr_fit_entry Op sqrtF init ne_solve p X Y = FitRaisePartial a -> Inv a) ->
+  forall (cs : list pcall) (o : pobj), (forall a, po_attrs o = Some a -> Inv a) ->
+  forall a, po_attrs (fst (prun Op sqrtF init ne_solve o cs)) = Some a -> Inv a.
+Proof. exact @pobj_reachable_inv. Qed.
+Print Assumptions C19_pobj_reachable_inv.
+
+Theorem C19_pobj_reachable_shapes : forall (F : Type) (Op : fops F) (sqrtF : F -> F) (init : tensor F -> list (tensor F))
+  (ne_solve : list (list F) -> list F -> list F) (cs : list pcall) (p0 : pprm) (a : pattrs),
+  po_attrs (fst (prun Op sqrtF init ne_solve (mkPobj p0 None) cs)) = Some a -> attrs_shapes_ok a.
+Proof. exact @pobj_reachable_shapes. Qed.
+Print Assumptions C19_pobj_reachable_shapes.
+
+Theorem C19_pobj_predict_uses_current : forall (F : Type) (Op : fops F) (sqrtF : F -> F) (init : tensor F -> list (tensor F))
+  (ne_solve : list (list F) -> list F -> list F) (cs1 : list pcall) (X : tensor F) (cs2 : list pcall) (o : pobj),
+  nth (length cs1) (snd (prun Op sqrtF init ne_solve o (cs1 ++ PPredict X :: cs2))) PRaise =
+  match po_attrs (fst (prun Op sqrtF init ne_solve o cs1)) with
+  | None => PRaise
+  | Some a => match plsr_predict_entry Op (po_prm (fst (prun Op sqrtF init ne_solve o cs1))) a X with Ok t => PTensor t | Err => PRaise end
+  end.
+Proof. exact @pobj_predict_uses_current. Qed.
+Print Assumptions C19_pobj_predict_uses_current.
+
 (* fit(X, Y) then transform(X) on the object returns the fitted X scores (whatever the object went through before) *)
 Theorem C19_plsr_obj_fit_then_transform : forall (F : Type) (Op : fops F) (sqrtF : F -> F) (init : tensor F -> list (tensor F))
   (ne_solve : list (list F) -> list F -> list F) (o : pobj) (X Y : tensor F) (a : pattrs),
